@@ -41,14 +41,24 @@ fn verif_char_at(b: &Xstr, pos: usize) -> (r: Option<char>)
 { unimplemented!() }
 
 // ---- ASSUMED std / dependency pieces the lexer uses; none of them moves the cursor
-pub assume_specification [ char::is_ascii_whitespace ] (c: &char) -> bool;
-pub assume_specification [ char::is_ascii_digit ] (c: &char) -> bool;
+pub assume_specification [ char::is_ascii_whitespace ] (c: &char) -> (r: bool)
+    ensures r == is_ws(*c);
+pub assume_specification [ char::is_ascii_digit ] (c: &char) -> (r: bool)
+    ensures r == is_dec_digit(*c);
 pub assume_specification [ char::to_digit ] (c: char, radix: u32) -> (r: Option<u32>)
-    ensures r is Some ==> r->0 < radix;
-// literal conversions (std parse / from_str_radix / arcstr From<&String>): values are C16's second half, not decided here
-#[verifier::external_body] fn verif_xstr_from_string(s: &String) -> Xstr { unimplemented!() }
-#[verifier::external_body] fn verif_parse_real(s: &String) -> Result<f64, ()> { unimplemented!() }
-#[verifier::external_body] fn verif_parse_int(s: &String, radix: u32) -> Result<i128, ()> { unimplemented!() }
+    ensures r is Some ==> r->0 < radix, radix == 16 ==> r == hexval(c);
+// literal conversions (arcstr From<&String>, std parse / from_str_radix): ASSUMED to compute the stated spec functions;
+// from_str_radix panics on a radix outside 2..=36 (an obligation at the call)
+#[verifier::external_body] fn verif_xstr_from_string(s: &String) -> (r: Xstr)
+    ensures xtext(r) == s@
+{ unimplemented!() }
+#[verifier::external_body] fn verif_parse_real(s: &String) -> (r: Result<f64, ()>)
+    ensures r is Ok ==> real_lit_val(s@) == Some(r->Ok_0), r is Err ==> real_lit_val(s@) is None
+{ unimplemented!() }
+#[verifier::external_body] fn verif_parse_int(s: &String, radix: u32) -> (r: Result<i128, ()>)
+    requires 2 <= radix <= 36
+    ensures r is Ok ==> int_lit_val(s@, radix) == Some(r->Ok_0 as int), r is Err ==> int_lit_val(s@, radix) is None
+{ unimplemented!() }
 #[verifier::external_body] fn verif_substr_is(s: &Xsubstr, lit: &str) -> bool { unimplemented!() }
 impl Xstr {
     // ArcStr::substr(a..): to the end of the text
@@ -58,14 +68,57 @@ impl Xstr {
         ensures sub_parent(t) == *self, sub_lo(t) == a, sub_hi(t) == blen(xtext(*self))
     { unimplemented!() }
 }
-// the bit-literal builder (verified in unit bitstr: append_bit requires a bit, finish packs them)
+// the bit-literal builder (verified in unit bitstr with these postconditions: append_bit pushes one bit, finish packs
+// them; its length preconditions - fewer than 2^64 - 8 bits - are NOT carried over: a literal that long needs a source
+// text of 2^61 bytes)
+pub uninterp spec fn xbits(b: Xbitstr) -> Seq<bool>;
 #[verifier::external_body] pub struct BitvecBuilder { _p: u8 }
 impl BitvecBuilder {
-    #[verifier::external_body] pub fn default() -> BitvecBuilder { unimplemented!() }
-    #[verifier::external_body] pub fn append_bit(&mut self, val: u8) requires val <= 1 { unimplemented!() }
-    #[verifier::external_body] pub fn finish(self) -> Xbitstr { unimplemented!() }
+    pub uninterp spec fn bits(&self) -> Seq<bool>;
+    #[verifier::external_body] pub fn default() -> (r: BitvecBuilder) ensures r.bits() == Seq::<bool>::empty() { unimplemented!() }
+    #[verifier::external_body] pub fn append_bit(&mut self, val: u8) requires val <= 1 ensures final(self).bits() == old(self).bits().push(val == 1) { unimplemented!() }
+    #[verifier::external_body] pub fn finish(self) -> (r: Xbitstr) ensures xbits(r) == self.bits() { unimplemented!() }
 }
-impl From<Xbitstr> for Cell { #[verifier::external_body] fn from(x: Xbitstr) -> (r: Cell) { unimplemented!() } }
+impl From<Xbitstr> for Cell { #[verifier::external_body] fn from(x: Xbitstr) -> (r: Cell) ensures r == Cell::Bitstr(x) { unimplemented!() } }
+
+// what a token denotes (C16, second half): s is the source text, the token is its characters [k0, k1)
+pub open spec fn lit_ok(s: Seq<char>, k0: int, k1: int, t: Tok) -> bool {
+    match t {
+        Tok::Literal(c) =>
+            if s[k0] == '|' {
+                k0 + 2 <= k1 && s[k1 - 1] == '|' && bit_body(s, k0 + 1, k1 - 1)
+                && c is Bitstr && xbits(c->Bitstr_0) == lit_bits(s, k0 + 1, k1 - 1)
+            } else if is_open_quote(s[k0]) {
+                k0 + 2 <= k1 && is_close_quote(s[k1 - 1]) && str_body(s, k0 + 1, k1 - 1)
+                && c is Str && xtext(c->Str_0) == str_dec(s, k0 + 1, k1 - 1)
+            } else {
+                num_start(s, k0) && (if num_is_real(s, k0, k1) {
+                    !num_has_prefix(s, k0) && c is Real && real_lit_val(num_digits(s, k0, k1)) == Some(c->Real_0)
+                } else {
+                    c is Int && int_lit_val(num_digits(s, k0, k1), num_radix(s, k0)) == Some(c->Int_0 as int)
+                })
+            },
+        Tok::Word(_) => k0 < k1 && s[k0] != '|' && !is_open_quote(s[k0]) && !num_start(s, k0),
+        _ => true,
+    }
+}
+// what the number scanner knows before it walks the rest of the token
+pub open spec fn num_facts(s: Seq<char>, k0: int, kb: int, sg: Seq<char>, num_prefix: Option<char>, radix: Option<u32>) -> bool {
+    &&& (num_prefix is Some) == num_start(s, k0)
+    &&& s[k0] != '|' && !is_open_quote(s[k0])
+    &&& num_prefix is Some ==> {
+        &&& num_prefix->0 == s[num_first(s, k0)]
+        &&& kb == num_body(s, k0)
+        &&& sg == sign_seq(s, k0)
+        &&& radix == (if num_has_prefix(s, k0) { Some(num_radix(s, k0)) } else { None::<u32> })
+    }
+}
+// "... or are rejected": a number token is refused only when it has no value
+pub open spec fn lit_err(s: Seq<char>, k0: int, k1: int) -> bool {
+    s[k0] != '|' && !is_open_quote(s[k0]) && !is_ws(s[k0]) && num_start(s, k0) ==>
+        (if num_is_real(s, k0, k1) { num_has_prefix(s, k0) || real_lit_val(num_digits(s, k0, k1)) is None }
+         else { int_lit_val(num_digits(s, k0, k1), num_radix(s, k0)) is None })
+}
 
 impl Lex {
 //@use lex.fns Lex::peek_char assumed
